@@ -16,7 +16,7 @@ RULE = ('one real ECU; a generated history of up to 12 add_timer / remove_timer 
 FAULT_COUNTERS = {'application thread parked at a source line inside add_timer / remove_timer / subscribe / unsubscribe (pre-emption)': 'preempted_calls', 'operations issued from inside a timer callback': 'ops_in_timer_ctx', 'callbacks removing themselves': 'self_removals', 'expiries in the same pass': 'same_pass_expiries'}
 REQUIRED_PROBES = ['busy_callbacks', 'timer_calls', 'oneshots', 'periodics', 'duplicates', 'ops_in_timer_ctx', 'self_removals', 'removes', 'same_pass_expiries', 'subscriber_calls', 'preempted_calls', 'concurrent_add_remove']
 PERIODS_MS = [1, 2, 5, 10, 10, 20, 50, 100, 250, 500, 1000, 3000]
-GAPS_MS = [0, 0, 0, 1, 5, 10, 10, 20, 100, 600, 2500]
+GAPS_MS = [0, 0, 0, 1, 5, 10, 10, 20, 100, 600, 2500, 0.65, 1.7, 9.35, 19.5]      # ("arbitrary idle gaps": not only whole milliseconds)
 
 
 def generate(rng, tier, i):
@@ -61,6 +61,21 @@ def generate(rng, tier, i):
             per = rng.choice([5, 10, 50])
             ops += [{'op': 'add', 'cb': cbx, 'period_ms': per, 'periodic': True, 'ctx': 'app', 'gap_ms': 0}, {'op': 'add', 'cb': cbx, 'period_ms': per, 'periodic': rng.random() < 0.5, 'ctx': 'app', 'gap_ms': 0},
                     {'op': 'remove', 'cb': cbx, 'ctx': 'app', 'gap_ms': rng.choice([0, 1, per])}]
+    if ncb > 1 and rng.random() < 0.2:
+        # a periodic callback that, in one invocation, removes another timer that falls due in the same pass and registers a new one
+        per = rng.choice([5, 10, 50])
+        ca, cb2 = rng.sample(range(ncb), 2)
+        ops += [{'op': 'add', 'cb': ca, 'period_ms': per, 'periodic': True, 'ctx': 'app', 'gap_ms': rng.choice([0, 5]), 'act_at': rng.choice([1, 2]),
+                 'act': [{'op': 'remove', 'cb': cb2, 'ctx': 'timer', 'gap_ms': 0},
+                         {'op': 'add', 'cb': rng.randrange(ncb), 'period_ms': rng.choice([per, 20]), 'periodic': rng.random() < 0.5, 'ctx': 'timer', 'gap_ms': 0}][:rng.choice([1, 2, 2])]},
+                {'op': 'add', 'cb': cb2, 'period_ms': per, 'periodic': rng.random() < 0.7, 'ctx': 'app', 'gap_ms': 0}]
+    # a timer callback that performs two operations in one invocation (e.g. replaces one timer by another: the list keeps its length)
+    for o in ops:
+        if o.get('ctx') == 'timer' and o['op'] in ('add', 'remove') and rng.random() < 0.3:
+            if o['op'] == 'remove':
+                o['then'] = [{'op': 'add', 'cb': rng.randrange(ncb), 'period_ms': rng.choice(PERIODS_MS), 'periodic': rng.random() < 0.5, 'ctx': 'timer', 'gap_ms': 0}]
+            else:
+                o['then'] = [{'op': 'remove', 'cb': rng.randrange(ncb), 'ctx': 'timer', 'gap_ms': 0}]
     # pre-emption of the application thread inside add_timer / remove_timer / subscribe / unsubscribe
     if rng.random() < 0.25:
         cand = [o for o in ops if o.get('ctx') == 'app' and o['op'] in ('add', 'remove', 'sub', 'unsub')]
@@ -117,6 +132,9 @@ def execute(scn, keep_log=False, hook=None):
                     busy_open.remove(b0)
                     busy.append((b0, sim.now))
                     stats['busy_callbacks'] += 1
+                if r.get('act') and len(r['calls']) == r.get('act_at', 1):
+                    for extra in r['act']:          # a periodic callback that changes other registrations (several operations in one invocation)
+                        perform(extra)
                 sr = r.get('self_remove_after')
                 if sr is not None and len(r['calls']) >= sr:
                     stats['self_removals'] += 1
@@ -147,7 +165,8 @@ def execute(scn, keep_log=False, hook=None):
     def perform(o):
         if o['op'] == 'add':
             r = {'cb': o['cb'], 't_reg': sim.now, 'tick_reg': stamp()[1], 'delta': o['period_ms'] * 1_000_000, 'periodic': o['periodic'], 'calls': [],
-                 'self_remove_after': o.get('self_remove_after'), 'self_remove_returns': o.get('self_remove_returns', False), 'busy_ms': o.get('busy_ms')}
+                 'self_remove_after': o.get('self_remove_after'), 'self_remove_returns': o.get('self_remove_returns', False), 'busy_ms': o.get('busy_ms'),
+                 'act': o.get('act'), 'act_at': o.get('act_at', 1)}
             if any(x['cb'] == o['cb'] for x in regs):
                 stats['duplicates'] += 1
             regs.append(r)
@@ -186,6 +205,8 @@ def execute(scn, keep_log=False, hook=None):
 
             def operator(cookie, o=o):
                 perform(o)
+                for extra in o.get('then', []):      # several operations in one callback invocation
+                    perform(extra)
                 return False
             ecu.add_timer(0.001, operator)
         else:
@@ -193,9 +214,9 @@ def execute(scn, keep_log=False, hook=None):
 
     t = sim.now
     for o in scn['ops']:
-        t += o.get('gap_ms', 0) * 1_000_000
+        t += int(o.get('gap_ms', 0) * 1_000_000)
         sim.at(t, (lambda o=o: issue(o)), 'op')
-    longest = max([o['period_ms'] for o in scn['ops'] if o['op'] == 'add'] + [10])
+    longest = max([o['period_ms'] for o in scn['ops'] if o['op'] == 'add'] + [x['period_ms'] for o in scn['ops'] for x in (o.get('then') or []) + (o.get('act') or []) if x['op'] == 'add'] + [10])
     t_end = t + min(3 * longest, 7000) * 1_000_000 + 300_000_000
     sim.run_until(t_end)
     t_judge = sim.now
@@ -231,7 +252,7 @@ def execute(scn, keep_log=False, hook=None):
         # are concurrent); the callback must not run after the call has returned, and may stop running as soon as it has started
         ends = [x for x in removed.get(cb, []) if x[2] > r.get('tick_ret', r['tick_reg'])]
         stop = min(ends, key=lambda x: x[1]) if ends else None
-        t_stop = stop[3] if stop else None
+        t_stop = min(x[3] for x in ends) if ends else None      # (the removal that started first, not the one that returned first)
         t_stop_ret = stop[0] if stop else None
         # a removal whose call overlapped the registering call may or may not have taken this registration with it
         overl = [x for x in removed.get(cb, []) if not (x[2] > r.get('tick_ret', r['tick_reg']) or x[1] < r['tick_reg'])]
